@@ -50,6 +50,16 @@ CHECKS = {
  "C17": dict(tech="TLC enumerates CBoundary.tla completely (function x invalid-argument class x value; link length x buffer size); every case executed against the real C ABI",
              text="Small-scope exhaustive, test per transition: error id + EINVAL + no effect (descriptor table, tree, current directory, caller buffer) for every invalid argument; readlink returns L, copies min(L,B), never writes beyond, NULL/0 allowed.",
              note="memory safety beyond canaries is outside this technique", ref="6/C17"),
+
+ "C06": dict(tech="TLC model checking of Procfs.tla (skeleton, over-mount relation, handle kinds, both resolvers; invariant Genuine; mechanism-removal variants) + replay of every TLC-generated case with real mount(2) over-mounts in a private mount namespace",
+             text="Design: for every over-mount set (<=1 quick, <=2 thorough) x handle kind x resolver x base x path x op a success never touches a visibly over-mounted node. Code: the same cases with real tmpfs/bind mounts (files, dirs, procfs files/dirs, symlink-on-symlink) and handles made from fsopen, open_tree (plain, recursive) and open descriptors; returned descriptors must be genuine (f_type, st_dev of the handle, not an over-mount source), visible over-mounts must fail, private handles must be unaffected (judged against the no-mount twin).",
+             note="needs CAP_SYS_ADMIN in a private mount namespace (available here); racing-mount placements are explored in the thorough tier only", ref="6/C06"),
+ "C07": dict(tech="TLC invariants NoLeave / MagicComponentRefused / OpenNeverFollows on Procfs.tla + class-level oracle ProcClass.tla (entry class x decoration x operation) applied to the live contents of /proc, /proc/self, /proc/thread-self through both procfs resolvers",
+             text="Every live entry (classified file/dir/symlink-to-dir/symlink-to-file/magic-link) x 6 decorations x 9 operations x 2 resolvers: outcome must match the TLC-enumerated class table and, for sub-paths without '..', the two resolvers must agree; creation flags refused.",
+             note="the worker's handle is ProcfsHandle::new(); some /proc files legitimately refuse to open (accepted if both resolvers agree); known finding F-C07-nonabsolute-magiclink-enoent listed", ref="6/C07"),
+ "C08": dict(tech="TLC model checking of ProcRetry.tla (HandlesBounded, MissingIsENOENT; recursive variant must fail) + ptrace-traced real lookups on re-mounted /proc (hidepid=1/2/ptraceable, subset=pid) as root and as an unprivileged caller, judged by TLC (TraceRetry.tla)",
+             text="Every host /proc option x privilege x constructor x base x path kind x operation: procfs root descriptors created, peak descriptors and syscall count per call are taken from the raw trace; missing paths must be ENOENT, existing ones must not.",
+             note="'unprivileged' = effective uid switch (no effective capabilities); bounds 6 handles / 24 descriptors / 4000 syscalls", ref="6/C08"),
 }
 
 NA = {
